@@ -377,6 +377,9 @@ def leaf_specs(tier, classes=None):
             for si in range(n):
                 for so in range(m):
                     add(dict(op="Resize", oshape=[m], ishape=[n], ishift=[si], oshift=[so]))
+                add(dict(op="Resize", oshape=[m], ishape=[n], ishift=[si], oshift=None))
+            for so in range(m):
+                add(dict(op="Resize", oshape=[m], ishape=[n], ishift=None, oshift=[so]))
     for s in space.shapes((1, 2, 3), (1, 2, 3, 4), E):
         for ax in space.axes_subsets(len(s)):
             add(dict(op="Flip", shape=list(s), axes=None if ax is None else list(ax)))
@@ -453,12 +456,12 @@ def leaf_specs(tier, classes=None):
                         for op in ("Interpolate", "Gridding"):
                             add(dict(op=op, grid=grid, batch=batch, coord=fam, npts=5, kernel=kn, width=w, param=prm))
         if len(grid) > 1:
-            wl = [2.5, 1][:len(grid)] + [3] * (len(grid) - 2)
+          for wl in ([[2.5, 1], [1, 2.5]] if len(grid) == 2 else [[2.5, 1, 3], [3, 1.5, 2], [2, 3, 1.5]]):
             for (kn, prm) in kerns[1::2]:
-                for op in ("Interpolate", "Gridding"):
-                    add(dict(op=op, grid=grid, batch=[], coord="tie", npts=6, kernel=kn, width=wl, param=prm, pts2=True))
-                    add(dict(op=op, grid=grid, batch=[], coord="random", npts=4, kernel=kn, width=wl,
-                             param=[prm] * len(grid), cdtype="f32"))
+                  for op in ("Interpolate", "Gridding"):
+                      add(dict(op=op, grid=grid, batch=[], coord="tie", npts=6, kernel=kn, width=wl, param=prm, pts2=True))
+                      add(dict(op=op, grid=grid, batch=[], coord="random", npts=4, kernel=kn, width=wl,
+                               param=[prm] * len(grid), cdtype="f32"))
     # NUFFT / NUFFTAdjoint
     ngrids = [[4], [5], [1], [3, 4], [2, 2, 3]] if not T else [[4], [5], [1], [6], [3, 4], [4, 4], [1, 3], [2, 2, 3], [3, 2, 2]]
     for grid in ngrids:
